@@ -251,31 +251,22 @@ Definition encode (m : mset) : mres (list byte) :=
   | MErr e => MErr e
   | MOk u => MOk (encode_exts (m_ext m) ++ u)
   end.
+(* the slow path writes the length itself (proto/messageset.go marshalMessageSetField):
+   AppendFieldStart, tag 3/bytes, AppendVarint(Size(m)), the message bytes, AppendFieldEnd *)
+Definition append_item_slow (id : N) (payload : list byte) : list byte :=
+  append_field_start id ++ enc_tag field_message 2 ++ enc_varint (N.of_nat (length payload)) ++ payload ++ append_field_end.
+Definition encode_slow (m : mset) : mres (list byte) :=
+  match append_unknown (m_unknown m) with
+  | MErr e => MErr e
+  | MOk u => MOk (flat_map (fun e => append_item_slow (fst e) (snd e)) (m_ext m) ++ u)
+  end.
+(* sizeMessageSet of the slow path: SizeField + SizeTag(3) + SizeBytes(size of the message) *)
+Definition size_slow (m : mset) : N :=
+  fold_right (fun e acc => size_field (fst e) + size_tag field_message + size_bytes (N.of_nat (length (snd e))) + acc) 0 (m_ext m)
+  + size_unknown (m_unknown m).
 Definition size_exts (l : list (N * list byte)) : N :=
   fold_right (fun e acc => size_item (fst e) (N.of_nat (length (snd e))) + acc) 0 l.
 Definition size (m : mset) : N := size_exts (m_ext m) + size_unknown (m_unknown m).
-
-(* length-prefix normalisation of an unknown section (what the slow path stores):
-   used to state fast/slow agreement *)
-Fixpoint norm_unknown_loop (g : list byte) (u : list byte) (acc : list byte) : option (list byte) :=
-  match g with
-  | [] => None
-  | _ :: g' =>
-    match u with
-    | [] => Some acc
-    | _ =>
-      match dec_tag u with
-      | Err _ => None
-      | Ok (num, typ, r) =>
-        if negb (typ =? 2) then None else
-        match dec_bytes r with
-        | Err _ => None
-        | Ok (p, r') => norm_unknown_loop g' r' (acc ++ unknown_entry num p)
-        end
-      end
-    end
-  end.
-Definition norm_unknown (u : list byte) : option (list byte) := norm_unknown_loop (x00 :: u) u [].
 
 (* membership in a finite list of known type ids (how the driver instantiates [kn]) *)
 Definition kn_of (ids : list N) (id : N) : bool := existsb (N.eqb id) ids.
